@@ -598,6 +598,18 @@ func buildHandlers() map[string]handler {
 	h["(*math/rand.Rand).Float64"] = func(e *Exec, fn *ssa.Function, a []Value) Value {
 		return e.draw(a[0].(*Cell), "float64", nil, SF64)
 	}
+	// package-level functions draw from the process-global, automatically seeded source: an
+	// unseeded source of its own (never equal to any seeded one, every draw a fresh value)
+	for _, m := range []string{"Int63n", "Intn", "Int31n", "Int63", "Shuffle", "Float64"} {
+		mh := h["(*math/rand.Rand)."+m]
+		h["math/rand."+m] = func(e *Exec, fn *ssa.Function, a []Value) Value {
+			if e.globalRnd == nil {
+				e.globalRnd = e.newRnd(nil)
+			}
+			return mh(e, fn, append([]Value{e.globalRnd}, a...))
+		}
+	}
+	h["math/rand.Seed"] = noop
 	// ---- sort: insertion sort forking on the comparisons (contract: sorted permutation) ----
 	h["sort.Strings"] = func(e *Exec, fn *ssa.Function, a []Value) Value {
 		s := a[0].(Slice)
